@@ -173,4 +173,49 @@ func c21Extra(r *core.Run) {
 	}
 	r.Floor("R4.offset", 2)
 	r.Floor("R5.members", 1)
+	c21IteratorState(r)
+}
+
+// c21IteratorState: R6 — the VM's for-in asks HasNext() and then takes Next() for granted; the interpreter's only calls
+// Next() and stops at nil. Both agree only if the iterator's look-ahead field `next` (what HasNext tests against nil)
+// never holds an element outside the range: every value stored into InclusiveRangeIterator.next must be nil or the
+// result of the bounds check `validate`.
+func c21IteratorState(r *core.Run) {
+	const rule = "R6.lookahead"
+	w := r.W
+	n := 0
+	for _, fn := range w.SrcFuncsIn("interpreter") {
+		if fn.Parent() != nil {
+			continue
+		}
+		core.Instrs(fn, true, func(in ssa.Instruction) {
+			st, ok := in.(*ssa.Store)
+			if !ok {
+				return
+			}
+			fa, ok := st.Addr.(*ssa.FieldAddr)
+			if !ok {
+				return
+			}
+			tn, f := structFieldOf(fa)
+			if tn != "InclusiveRangeIterator" || f != "next" {
+				return
+			}
+			n++
+			v := core.Unwrap(st.Val)
+			okv := false
+			switch x := v.(type) {
+			case *ssa.Const:
+				okv = x.IsNil()
+			case *ssa.Call:
+				if sc := x.Call.StaticCallee(); sc != nil && sc.Name() == "validate" {
+					okv = true
+				}
+			}
+			r.Check(okv, rule, core.SSAKey(fn)+": InclusiveRangeIterator.next", st.Pos(), "the look-ahead element is nil or bounds-checked",
+				"the look-ahead element of the range iterator is assigned without the bounds check: HasNext() reports an element that Next() then refuses (or yields an element past `end`), and the two engines' loops disagree")
+		})
+	}
+	r.Check(n >= 2, rule, "stores to InclusiveRangeIterator.next", 0, itoa(n)+" found", "the look-ahead assignments of the range iterator were not found")
+	r.Floor(rule, 3)
 }
